@@ -3,6 +3,7 @@
   from the source into `GenK.decodeLength`) computes the model's `decodeLength`.
 -/
 import Proofs.KernelRealDec
+import Asn1.Decoder
 
 namespace Asn1.Kernels
 open Py
@@ -59,5 +60,43 @@ theorem decodeLength_kernel (allowIndef : Bool) (b : UInt8) (rest : Bytes) :
         have hne : (((rest.take size).length : Nat) : Int) ≠ (size : Int) := by rw [hl]; omega
         simp only [hne, ne_eq, not_false_eq_true, decide_true, if_true, hlen, if_false, liftDecLen]
         rfl
+
+end Asn1.Kernels
+
+namespace Asn1.Kernels
+open Py
+
+/-! ### the strict BOOLEAN decoder of CER/DER -/
+
+def liftBool : Res Val → Py.M Int
+  | .ok (.bool true) => .ok 1
+  | .ok (.bool false) => .ok 0
+  | .ok _ => .error (.lib "unreachable")
+  | .error _ => .error (.lib "PyAsn1Error")
+
+/-- `cer.decoder.BooleanPayloadDecoder.valueDecoder` as it is in the source (the stream read of `length` octets being
+    its argument) is the model's strict BOOLEAN decoder: exactly one contents octet, `FF` or `00` -/
+theorem cerBool_kernel (cfg : DecCfg) (hs : cfg.boolStrict = true) (h : Bytes) (tg : Tag) (c : Bytes) :
+    GenK.cerBool (c.length : Int) (bytesInts c) = liftBool (decPrim cfg .boolean (.prim h tg c)) := by
+  unfold GenK.cerBool decPrim
+  simp only [hs, if_true]
+  match c with
+  | [] => simp [liftBool, throw, throwThe, MonadExceptOf.throw]
+  | [b] =>
+    have hb := UInt8.toNat_lt b
+    simp only [List.length_singleton, bytesInts_cons, idx_cons_zero, bind, Except.bind, pure, Except.pure]
+    by_cases h1 : b = 0xFF
+    · subst h1; simp [liftBool]
+    · have h1' : ¬ ((b.toNat : Int) = 255) := by
+        intro hh; apply h1; apply UInt8.toNat_inj.mp; simp; omega
+      by_cases h0 : b = 0
+      · subst h0; simp [liftBool]
+      · have h0' : ¬ ((b.toNat : Int) = 0) := by
+          intro hh; apply h0; apply UInt8.toNat_inj.mp; simp; omega
+        have h0n : ¬ b.toNat = 0 := by omega
+        simp [h1, h0, h1', h0', h0n, liftBool, throw, throwThe, MonadExceptOf.throw]
+  | b1 :: b2 :: rest =>
+    have : ¬ ((rest.length : Int) + 1 + 1 = 1) := by omega
+    simp [this, liftBool, throw, throwThe, MonadExceptOf.throw]
 
 end Asn1.Kernels
